@@ -48,16 +48,24 @@ def clause_in_property(con, kind, clause, prop):
 
 _REPO = None
 _LIB = None
+_FEAS = {}
 
 
-def _verify_worker(args):
-    key, timeout_ms, confirm = args
+def _path_worker(args):
+    """explore one path (decision prefix) of one function; returns its obligations as SMT-LIB jobs"""
+    key, prefix, timeout_ms, confirm = args
     from contracts import schema
+    from vp.contract import VEngine
     con = REGISTRY[key]
     t0 = time.time()
-    out = {'key': key, 'jobs': [], 'problems': [], 'source': None}
+    out = {'key': key, 'prefix': prefix, 'jobs': [], 'problems': [], 'source': None, 'siblings': []}
+
+    class Eng(VEngine):
+        def __init__(self, *a, **k):
+            VEngine.__init__(self, *a, **k)
+            self._feas_cache = _FEAS.setdefault(key, {})
     try:
-        res, eng = verify_function(_REPO, con, schema.FIELDS, _LIB)
+        res, eng = verify_function(_REPO, con, schema.FIELDS, _LIB, engine_cls=Eng, single_prefix=prefix)
     except Exception as e:      # engine bug: undecided, never a violation
         out['problems'].append({'kind': 'engine', 'msg': '%s: %s' % (type(e).__name__, e),
                                 'tb': traceback.format_exc()[-1500:]})
@@ -65,27 +73,25 @@ def _verify_worker(args):
         return out
     out['source'] = res.source
     out['problems'] = res.problems
+    out['siblings'] = getattr(res, 'siblings', [])
     out['stats'] = res.stats
     out['assumed'] = res.assumed
     out['inlined'] = res.inlined
     out['callees'] = res.callees
     out['trivial'] = {'%s/%s' % k: v for k, v in res.trivial.items()}
     out['site_hits'] = res.site_hits
-    reach_count = {}
     for i, ob in enumerate(res.obligations):
-        if ob.expect_sat:
-            n = reach_count.get(ob.group, 0)
-            reach_count[ob.group] = n + 1
-            if n >= 3:
-                continue
         try:
             text = smt.to_smt2(ob.pc, ob.goal, ob.observables, ob.expect_sat)
         except Exception as e:
             out['problems'].append({'kind': 'engine', 'msg': 'smt2 generation: %s' % e})
             continue
-        out['jobs'].append({'id': '%s:%s#%d' % (key[0], key[1], i), 'fn': key, 'group': list(ob.group),
-                            'smt2': text, 'expect_sat': ob.expect_sat, 'timeout_ms': timeout_ms,
-                            'confirm': confirm, 'info': {k: v for k, v in ob.info.items() if k in ('line', 'call', 'loop', 'trace')}})
+        out['jobs'].append({'id': '%s:%s@%s#%d' % (key[0], key[1], '.'.join(map(str, prefix)) or 'root', i),
+                            'fn': key, 'group': list(ob.group),
+                            'smt2': text, 'expect_sat': ob.expect_sat,
+                            'timeout_ms': 3000 if ob.expect_sat else timeout_ms,
+                            'confirm': confirm and not ob.expect_sat,
+                            'info': {k: v for k, v in ob.info.items() if k in ('line', 'call', 'loop', 'trace')}})
     out['symex_s'] = time.time() - t0
     return out
 
@@ -127,7 +133,10 @@ def finding_matches(f, prop, fn_key, group, info=None):
 
 
 def run_property(prop, tier, seed, only_fn=None, verbose=False):
+    """explore all paths of all functions under contract for `prop` and discharge the
+    obligations, with one pool of workers fed from a dynamic queue of decision prefixes"""
     global _REPO, _LIB
+    import queue
     t_start = time.time()
     load_contracts()
     _REPO = Repo()
@@ -138,22 +147,81 @@ def run_property(prop, tier, seed, only_fn=None, verbose=False):
     timeout_ms = 10000 if tier == 'quick' else 60000
     confirm = tier == 'thorough'
     ctx = multiprocessing.get_context('fork')
-    work = [(k, timeout_ms, confirm) for k in keys]
-    if len(work) > 1:
-        with ctx.Pool(min(16, len(work))) as pool:
-            fres = pool.map(_verify_worker, work, chunksize=1)
-    else:
-        fres = [_verify_worker(w) for w in work]
+    done = queue.Queue()
+    fres = {k: {'key': k, 'jobs': [], 'problems': [], 'source': None, 'stats': {'paths': 0}, 'assumed': set(),
+                'inlined': set(), 'callees': set(), 'trivial': {}, 'site_hits': {}, 'symex_s': 0.0} for k in keys}
     jobs = []
-    for fr in fres:
-        con = REGISTRY[fr['key']]
-        for j in fr['jobs']:
-            kind, clause = j['group']
-            if kind == 'reach' or clause_in_property(con, kind, clause, prop):
+    seen_jobs = set()
+    by_id = {}
+    reach_count = {}
+    max_paths = 6000
+    with ctx.Pool(16) as pool:
+        pending = 0
+
+        def submit_path(k, prefix):
+            nonlocal pending
+            pending += 1
+            pool.apply_async(_path_worker, ((k, prefix, timeout_ms, confirm),),
+                             callback=lambda r: done.put(('path', r)),
+                             error_callback=lambda e: done.put(('error', e)))
+
+        def submit_job(j):
+            nonlocal pending
+            pending += 1
+            pool.apply_async(smt.discharge_one, (j,), callback=lambda r: done.put(('smt', r)),
+                             error_callback=lambda e: done.put(('error', e)))
+        for k in keys:
+            submit_path(k, [])
+        while pending:
+            kind, r = done.get()
+            pending -= 1
+            if kind == 'error':
+                raise RuntimeError('worker failed: %r' % (r,))
+            if kind == 'smt':
+                by_id[r['id']] = r
+                continue
+            fr = fres[tuple(r['key'])]
+            con = REGISTRY[tuple(r['key'])]
+            fr['source'] = r['source'] or fr['source']
+            fr['problems'].extend(r['problems'])
+            fr['stats']['paths'] += 1
+            fr['symex_s'] += r.get('symex_s', 0.0)
+            fr['assumed'].update(r.get('assumed', []))
+            fr['inlined'].update(r.get('inlined', []))
+            fr['callees'].update(r.get('callees', []))
+            for g, n in r.get('trivial', {}).items():
+                fr['trivial'][g] = fr['trivial'].get(g, 0) + n
+            for g, n in r.get('site_hits', {}).items():
+                fr['site_hits'][g] = fr['site_hits'].get(g, 0) + n
+            if fr['stats']['paths'] < max_paths:
+                for sp in r['siblings']:
+                    submit_path(tuple(r['key']), sp)
+            elif r['siblings']:
+                fr['problems'].append({'kind': 'engine', 'msg': 'path budget exhausted (%d)' % max_paths})
+            for j in r['jobs']:
+                kind_, clause = j['group']
+                if kind_ != 'reach' and not clause_in_property(con, kind_, clause, prop):
+                    continue
+                h = hashlib.sha1(j['smt2'].encode()).hexdigest()
+                if (tuple(j['fn']), tuple(j['group']), h) in seen_jobs:
+                    continue
+                seen_jobs.add((tuple(j['fn']), tuple(j['group']), h))
+                if kind_ == 'reach':
+                    n = reach_count.get((tuple(j['fn']), clause), 0)
+                    reach_count[(tuple(j['fn']), clause)] = n + 1
+                    if n >= 2:
+                        continue
                 jobs.append(j)
-    outs = smt.discharge_all(jobs)
-    by_id = {o['id']: o for o in outs}
-    return fres, jobs, by_id, time.time() - t_start
+                fr['jobs'].append(j)
+                submit_job(j)
+    out = []
+    for k in keys:
+        fr = fres[k]
+        fr['assumed'] = sorted(fr['assumed'])
+        fr['inlined'] = sorted(fr['inlined'])
+        fr['callees'] = sorted(fr['callees'])
+        out.append(fr)
+    return out, jobs, by_id, time.time() - t_start
 
 
 def summarise(prop, tier, seed, fres, jobs, by_id, wall, extra_bounded=None):
